@@ -1,13 +1,138 @@
-(* C01 — Beacon DKG: honest members agree on the group key and on who misbehaved.
-   ONLY property statements; proofs are in Proofs/C01.v. *)
-From Coq Require Import ZArith NArith List Bool.
+(* C01 — Beacon DKG (pkg/beacon/gjkr): honest members agree on the group key and on who misbehaved;
+   no honest member is ever marked inactive/disqualified by an honest member.
+   ONLY property statements; proofs are in Proofs/C01.v.
+
+   THE FULL STATEMENT (DESIGN.md section 6, C01), which is FALSE of the code as it is written, also
+   after fix commits 852aee9 and 4ad62fd (see [agreement_refuted] below and findings/C01.json):
+
+     forall i : input, well-formed i -> covered i (at most t corrupt seats) ->
+       agreement (run i) /\ never_marked (honest_ids i) (run i)
+
+   where [run] is the model of the twelve phases in Model/C01.v under an arbitrary adversary script
+   and arbitrary per-member arrival orders.  What is proved instead (all closed, no axioms):
+     1. soundness of the executable property [spec01] that every run of ./check evaluates on the
+        REAL implementation's outputs;
+     2. the refutation, with a concrete input;
+     3. `_partial` results over all inputs: the inactivity half of the property per phase
+        (a member whose message arrived is never marked inactive, a silent member is marked by
+        everybody), irrelevance of the cross-sender interleaving for deduplicateBySender, arrival
+        orders deliver exactly the published messages, and honest shares / points pass the receivers'
+        checks.  Missing for the full statement: the referee argument for the disqualification
+        steps of phases 2, 4/5, 8/9, 11 (which is exactly where the three recorded findings live)
+        and the reconstruction (Lagrange) argument for the group key. *)
+From Coq Require Import ZArith NArith List Bool Permutation.
 From KV Require Import Common.Verdict Model.C01 Proofs.C01.
 Import ListNotations.
 Open Scope N_scope.
 
-(* Soundness of the executable property evaluated on the implementation's observables. *)
+(* ---- 1. soundness of the executable property on the implementation's observables ---- *)
 Theorem spec01_sound :
   forall cs, spec01 cs = true -> covered (c_in cs) = true ->
     obs_agreement (c_obs cs) /\ obs_never_marked (honest_ids (c_in cs)) (c_obs cs).
 Proof. exact Proofs.C01.spec01_sound. Qed.
 Print Assumptions spec01_sound.
+
+(* ---- 2. the faithful model violates the full statement (finding C01-f) ---- *)
+Theorem agreement_refuted :
+  exists i : input,
+    well_formed {| c_in := i; c_obs := map (fun h => (h_id h, OFailed)) (i_honest i) |} = true /\
+    corrupt_count i = 2 /\ covered i = true /\
+    ~ agreement (run i) /\ ~ never_marked (honest_ids i) (run i).
+Proof. exact Proofs.C01.agreement_refuted. Qed.
+Print Assumptions agreement_refuted.
+
+(* ---- 3. partial results, over all configurations, states, adversary messages and orders ---- *)
+
+(* MarkInactiveMembers, exactly: the new inactive members are the operating members other than
+   the member itself that are not in the list of senders heard; DQ list and identity untouched *)
+Theorem mark_inactive_spec_partial :
+  forall c active s,
+    (forall m, In m (ia (mark_inactive c active s)) <->
+               In m (ia s) \/ (is_operating c s m = true /\ m <> me s /\ ~ In m active))
+    /\ dq (mark_inactive c active s) = dq s /\ me (mark_inactive c active s) = me s.
+Proof. exact Proofs.C01.mark_inactive_spec. Qed.
+Print Assumptions mark_inactive_spec_partial.
+
+(* every message of the phase's type that arrives from an accepted sender reaches the inbox,
+   whatever else arrives before or after it *)
+Theorem delivered_partial :
+  forall c p L s m,
+    In m L -> kind_ok p (payload m) = true ->
+    accepts c s (msg_sender (payload m)) (msg_sess (payload m)) (from_key m) = true ->
+    inbox_has (payload m) (fold_left (receive c p) L s).
+Proof. exact Proofs.C01.delivered. Qed.
+Print Assumptions delivered_partial.
+
+(* never-marked, inactivity half: a member whose message arrived is not marked inactive by the
+   receiver in that phase (phases 2, 5, 8, 9, 11; [actives p] is the list the phase hands to
+   MarkInactiveMembers, see [phases_mark_inactive_first]) *)
+Theorem arrived_not_marked_inactive_partial :
+  forall c p L s m,
+    In m L -> kind_ok p (payload m) = true -> p <> 3 ->
+    accepts c s (msg_sender (payload m)) (msg_sess (payload m)) (from_key m) = true ->
+    ~ In (msg_sender (payload m))
+         (ia (mark_inactive c (actives p (fold_left (receive c p) L s)) (fold_left (receive c p) L s))).
+Proof. exact Proofs.C01.arrived_not_marked_inactive. Qed.
+Print Assumptions arrived_not_marked_inactive_partial.
+
+(* the same for phase 4, which needs the shares AND the commitments message of the sender *)
+Theorem arrived_not_marked_inactive_phase4_partial :
+  forall c L s m1 m2 a ss1 ss2 sh cs,
+    In m1 L -> In m2 L -> payload m1 = Shares a ss1 sh -> payload m2 = Commits a ss2 cs ->
+    accepts c s a ss1 (from_key m1) = true -> accepts c s a ss2 (from_key m2) = true ->
+    ~ In a (ia (mark_inactive c (actives 3 (fold_left (receive c 3) L s)) (fold_left (receive c 3) L s))).
+Proof. exact Proofs.C01.arrived_not_marked_inactive_phase4. Qed.
+Print Assumptions arrived_not_marked_inactive_phase4_partial.
+
+(* agreement, inactivity half: an operating member that nobody heard is marked inactive by every
+   receiver alike *)
+Theorem silent_marked_inactive_partial :
+  forall c p s a,
+    is_operating c s a = true -> a <> me s -> ~ In a (actives p s) ->
+    In a (ia (mark_inactive c (actives p s) s)).
+Proof. exact Proofs.C01.silent_marked_inactive. Qed.
+Print Assumptions silent_marked_inactive_partial.
+
+(* the phases start with MarkInactiveMembers on exactly that list *)
+Theorem phases_mark_inactive_first :
+  forall c s,
+    phase2 c s = fold_left (phase2_step c) (dedup (in_eph (mark_inactive c (actives 1 s) s))) (mark_inactive c (actives 1 s) s)
+    /\ phase5 c s = fst (fold_left (fun sb m => fold_left (resolve5 c (fst m)) (snd m) sb)
+                                   (dedup (in_sacc (mark_inactive c (actives 4 s) s))) (mark_inactive c (actives 4 s) s, false))
+    /\ phase9 c s = fst (fold_left (fun sb m => fold_left (resolve9 c (fst m)) (snd m) sb)
+                                   (dedup (in_pacc (mark_inactive c (actives 8 s) s))) (mark_inactive c (actives 8 s) s, false)).
+Proof. exact Proofs.C01.phases_mark_inactive_first. Qed.
+Print Assumptions phases_mark_inactive_first.
+
+(* deduplicateBySender keeps exactly the first message of every sender ... *)
+Theorem dedup_first_message_wins :
+  forall A (l : list (N * A)) s v, In (s, v) (dedup l) <-> lookup s l = Some v.
+Proof. exact Proofs.C01.dedup_In. Qed.
+Print Assumptions dedup_first_message_wins.
+
+(* ... so two arrival orders with the same per-sender subsequences (consistent broadcast) give the
+   same deduplicated messages, up to order *)
+Theorem dedup_interleaving_irrelevant :
+  forall A (l1 l2 : list (N * A)), same_per_sender l1 l2 -> Permutation (dedup l1) (dedup l2).
+Proof. exact Proofs.C01.dedup_interleaving_irrelevant. Qed.
+Print Assumptions dedup_interleaving_irrelevant.
+
+(* an arrival order that is a permutation delivers exactly the published messages *)
+Theorem arrival_delivers_all :
+  forall A (all : list A) perm x,
+    is_perm (length all) perm = true -> (In x (arrival all perm) <-> In x all).
+Proof. exact Proofs.C01.arrival_In. Qed.
+Print Assumptions arrival_delivers_all.
+
+(* what an honest member publishes in phases 3 and 7 passes the receivers' checks of phases 4
+   and 8/9, for every modulus, polynomial and receiver: no honest member can be accused with reason *)
+Theorem honest_shares_valid :
+  forall qq a b j,
+    length a = length b -> a <> [] -> valid_g1 qq (eval qq a j) (eval qq b j) (combine a b) j = true.
+Proof. exact Proofs.C01.honest_shares_valid. Qed.
+Print Assumptions honest_shares_valid.
+
+Theorem honest_points_valid :
+  forall qq a j, a <> [] -> valid_g2 qq j (eval qq a j) a = true.
+Proof. exact Proofs.C01.honest_points_valid. Qed.
+Print Assumptions honest_points_valid.
